@@ -93,6 +93,14 @@ add("C07", "exploration", "DESIGN.md §2 C07",
     "enumeration order is imposed by wrapping os.listdir inside the harness process; the ignore pattern is read from "
     "the working tree's conf/pygopherd.conf")
 
+add("C08", "exploration", "DESIGN.md §2 C08",
+    "Model-based testing: Hypothesis-generated link files, .cap files, sidecars and extension-stripping modes; oracle = "
+    "reference reading of the same files written from the manual (entry multiset + documented order)",
+    "6k (quick) / 100k (thorough) decorated directories; every field of every listed entry and every abstract line "
+    "is compared with the reference model, and the positive/unnumbered/negative order is checked pairwise. "
+    "Agreement with a model written by the same reader of the manual; sampled.",
+    "generator stays inside what the manual defines (see evidence assumptions); stdlib mimetypes tables trusted")
+
 NOT_APPLICABLE = []
 
 
